@@ -29,22 +29,37 @@ def findWith (re : Rx.Re) (b : Bytes) : Bytes := (Rx.findBytes re b).getD []
 def exactAtB (P : Bytes → Bool) (S : Bytes) : Bool :=
   P S && (List.range S.length).all fun k => !P (S.take k)
 
+/-- first prefix length at which `P` holds -/
+def firstHold (P : Bytes → Bool) (S : Bytes) : Option Nat :=
+  (List.range (S.length + 1)).find? fun j => P (S.take j)
+
 /-- The property's demand for a case, computed from the un-stalled device's per-phase streams and
     the stall offset `k`, by the very case split of `Stalls` (C05.sendInput_stalls /
-    single_phase_stalls): walk the phases; a phase whose stream is cut by the stall must time out;
-    a phase that receives its whole stream completes (its predicate first holds exactly at the
-    end — otherwise the case is outside the quantifier: `none`). Returns the outcome, the
-    streams left and the stall budget left. -/
-def specWalk {α : Type} : Prog α → List Bytes → Nat → Option (Out α × List Bytes × Nat)
-  | .ret r, ss, k => some (.ok r, ss, k)
-  | .fail e, ss, k => some (.err e, ss, k)
+    single_phase_stalls): walk the phases; a phase whose stream is cut by the stall before the
+    point `c` where its predicate first holds must time out; a phase that receives its whole stream
+    completes when `c` is the end of the stream (otherwise the case is outside the quantifier:
+    `none`) — except that the LAST phase may complete before the end of its stream if the
+    predicate stays true from there on (NETCONF 1.1: `\n##` completes, the final `\n` follows);
+    what it returns then depends on where the reads were cut (`loose`). Returns the outcome, the
+    streams left, the stall budget left, and `loose`. -/
+def specWalk {α : Type} : Prog α → List Bytes → Nat → Option (Out α × List Bytes × Nat × Bool)
+  | .ret r, ss, k => some (.ok r, ss, k, false)
+  | .fail e, ss, k => some (.err e, ss, k, false)
   | .io _ P _ kont, ss, k =>
     match ss with
     | [] => none
     | S :: rest =>
-      if S.isEmpty || !exactAtB P S then none
-      else if k < S.length then some (.timeout, rest, 0)
-      else specWalk (kont S) rest (k - S.length)
+      match firstHold P S with
+      | none => none
+      | some c =>
+        if c == 0 then none
+        else if k < c then some (.timeout, rest, 0, false)
+        else if c == S.length then specWalk (kont S) rest (k - S.length)
+        else
+          let stable := (List.range (S.length - c + 1)).all fun i => P (S.take (c + i))
+          match kont (S.take c), rest with
+          | .ret r, [] => if stable then some (.ok r, [], k - c, true) else none
+          | _, _ => none
 
 def lower (b : UInt8) : UInt8 := if 65 ≤ b && b ≤ 90 then b + 32 else b
 
@@ -68,7 +83,9 @@ def answer (kind : OpKind) (d : Nat) (prog : Prog Bytes) (fulls : List Bytes) (d
   let model := showExcept (toPublic kind r.1)
   match specWalk prog fulls k with
   | none => ⟨false, "-", model, r.2.now, r.2.deadline⟩
-  | some (o, _, _) => ⟨true, showExcept (toPublic kind o), model, r.2.now, r.2.deadline⟩
+  | some (o, _, _, loose) =>
+    let sp := showExcept (toPublic kind o)
+    ⟨true, if loose then "ok:*" else sp, model, r.2.now, r.2.deadline⟩
 
 def parseEvents : Nat → List String → Option (List Event × List String)
   | 0, rest => some ([], rest)
@@ -169,11 +186,11 @@ def handleC05 : List String → String
           let spec : Option String :=
             match specWalk acq fulls k with
             | none => none
-            | some (.ok _, ss, k') =>
+            | some (.ok _, ss, k', _) =>
               match specWalk cmdP ss k' with
               | none => none
-              | some (o, _, _) => some (showExcept (wrapAcquire (.ok ()) (toPublic .sendInput o)))
-            | some (o, _, _) =>
+              | some (o, _, _, _) => some (showExcept (wrapAcquire (.ok ()) (toPublic .sendInput o)))
+            | some (o, _, _, _) =>
               some (showExcept (wrapAcquire (toPublic .getPrompt o) (.error .other)))
           match spec with
           | none => showAns ⟨false, "-", model, r.2.now, r.2.deadline⟩
